@@ -26,7 +26,7 @@ def cases(tier):
         for dims in itertools.product([2, 3] if (q or d == 4) else [2, 3, 4], repeat=d):
             for m in ((3, 4, 5, 6) if q else (3, 4, 5, 6, 8, 10)):
                 for fam, thr in (('generic', 0), ('generic', 1e-10), ('lowrank2', 1e-10), ('lowrank3', 1e-10), ('smalleig', 1e-2), ('smalleig', 1e-10),
-                                 ('impulses', 0), ('impulses', 1e-10), ('nearsym', 0), ('nearsym', 1e-10), ('whitened', 0), ('whitened', 1e-10), ('tinyunits', 1e-10), ('nearcut', 1e-3), ('nearcut', 1e-6), ('coarsecut', 0.1), ('rank1bond', 1e-10), ('rank1bond', 0)):
+                                 ('impulses', 0), ('impulses', 1e-10), ('nearsym', 0), ('nearsym', 1e-10), ('whitened', 0), ('whitened', 1e-10), ('tinyunits', 1e-10), ('intcore', 0), ('intcore', 1e-10), ('nearcut', 1e-3), ('nearcut', 1e-6), ('coarsecut', 0.1), ('rank1bond', 1e-10), ('rank1bond', 0)):
                     for rep in ('ttsvd', 'over', 'split', 'orthod'):
                         for fl in ('TT', 'FT', 'TF', 'FF'):
                             if rep in ('over', 'split', 'orthod') and fl != 'TT':
@@ -38,6 +38,8 @@ def cases(tier):
                             if fam in ('nearcut', 'coarsecut') and rep != 'ttsvd':
                                 continue      # the cut sits just below a singular value: only the representation whose spatial cores are orthonormal
                             if fam == 'tinyunits' and (rep != 'ttsvd' or d < 2 or fl != 'TT'):
+                                continue
+                            if fam == 'intcore' and (rep != 'ttsvd' or d != 1 or fl != 'TT'):
                                 continue
                             if rep == 'orthod' and thr > 1e-6:
                                 continue      # a coarse cut also acts on the spatial bonds, whose spectra depend on the gauge
@@ -110,7 +112,9 @@ def make_data(rng, dims, m, fam, thr=0):
         X = (U * sv) @ V.T
         A = rng.standard_normal((N, N)) / np.sqrt(N)
         return X, A @ X
-    if fam == 'generic':
+    if fam == 'intcore':
+        Z = rng.integers(-4, 5, (N, m + 1)).astype(float)          # integer-valued count data
+    elif fam == 'generic':
         Z = rng.standard_normal((N, m + 1))
     elif fam == 'smalleig':
         # snapshot PAIRS (x_j, A x_j) of linear dynamics of rank 3 with the real spectrum {0.9, 0.5, 2e-3}: one eigenvalue far
@@ -168,6 +172,9 @@ def run_case(case, seed):
         x = fact(X); y = fact(Y)
     if case['fam'] == 'tinyunits':
         x.ortho_right(); y.ortho_right()
+    if case['fam'] == 'intcore':
+        # y handed over as an uncompressed train whose snapshot core holds the integer counts themselves (integer dtype)
+        y = TT([np.eye(N).reshape(1, N, 1, N), np.rint(Y).astype(np.int64).reshape(N, m, 1, 1)])
     if case['rep'] == 'over':
         x = x + tt.zeros(dims + [m], [1] * (d + 1), 1); y = y + tt.zeros(dims + [m], [1] * (d + 1), 1)
     if case['rep'] == 'split':
